@@ -679,6 +679,26 @@ def _pass_through_and_patterns(chk, repo, cv):
     conv = [n for n, c in dcfg.calls_named("event_config_to_dict")]
     ok = len(conv) == 1 and dcfg.guards_at(conv[0].id).get("item_type == 'event_handler'") is True
     chk.ob("DICT-12", "the event-list form (str / list to dict) is applied to event_handler settings only", ok, vd.where(), construct=vd.ident, text="event form scope")
+    # a colour is three components: every return of the colour validator is a 3-tuple expression, the given tuple after its length test, a
+    # named colour or the hex conversion (a comprehension over the comma list has whatever length the list has)
+    vc = cv.methods["_validate_type_color"]
+    chk.analysed(vc)
+    ccfg = vc.cfg()
+    for r in [n for n in ccfg.nodes if n.kind == "stmt" and isinstance(n.ast, ast.Return) and n.ast.value is not None]:
+        v = r.ast.value
+        g = ccfg.guards_at(r.id)
+        ok = (isinstance(v, ast.Tuple) and len(v.elts) == 3) or \
+             (src(v) == "item" and g.get("isinstance(item, tuple)") is True and (g.get("len(item) != 3") is False or g.get("len(item) == 3") is True)) or \
+             (isinstance(v, ast.Subscript) and src(v.value) == "NAMED_RGB_COLORS") or (isinstance(v, ast.Call) and call_attr(v) == "hex_to_rgb")
+        chk.ob("DICT-12", "the colour validator returns exactly three components on every path", ok, vc.where(r.ast), detail=src(v), construct=vc.ident,
+               text="colour arity " + short(v, 40))
+    # event lists are split by the splitter that keeps `event{condition}` in one piece
+    ecd = repo.func(UF, "Util.event_config_to_dict")
+    chk.analysed(ecd)
+    sp = [c for c in ecd.calls() if (call_attr(c) or "").startswith("string_to_")]
+    chk.ob("DICT-12", "an event_handler setting given as a string is split by string_to_event_list (conditions with commas / spaces stay whole)",
+           len(sp) == 1 and call_attr(sp[0]) == "string_to_event_list", ecd.where(), detail=str([call_attr(c) for c in sp]), construct=ecd.ident,
+           text="event list splitter")
     # pow2: positive powers of two only
     p2 = repo.func(UF, "Util.is_power2")
     chk.analysed(p2)
@@ -806,6 +826,8 @@ def battery():
         M("bool validator passes 1 / 0 through unconverted", CV, "        if isinstance(item, bool):\n            return item", "        if item in (True, False):\n            return item", "PASS-12"),
         M("dict setting split like an event list", CV, "            if not isinstance(item, dict):\n                raise self.validation_error(item, validation_failure_info, \"Item is not a dict.\", 12)", "            item = Util.event_config_to_dict(item)", "DICT-12"),
         M("power of two by popcount", UF, "        return num != 0 and ((num & (num - 1)) == 0)", "        return bin(num).count(\"1\") == 1", "DICT-12"),
+        M("colour list of any length accepted", CV, "            return int(color[0]), int(color[1]), int(color[2])\n        except (IndexError, ValueError) as e:", "            return tuple(int(x) for x in color)\n        except (TypeError, ValueError) as e:", "DICT-12"),
+        M("event list split by the plain list splitter", UF, "            config = Util.string_to_event_list(config)", "            config = Util.string_to_list(config)", "DICT-12"),
     ]
 
 
